@@ -2161,15 +2161,17 @@ class BackendMixin(PasswordHash):
         """
         helper for subclasses to create stub methods which auto-load backend.
         """
-        if cls.__backend:
-            raise AssertionError(
-                f"{cls.name}: _finalize_backend({cls.__backend!r}) failed to replace lazy loader"
-            )
-        cls.set_backend()
-        if not cls.__backend:
-            raise AssertionError(
-                f"{cls.name}: set_backend() failed to load a default backend"
-            )
+        with _backend_lock:
+            if cls.__backend:
+                # another thread finished loading the backend after the caller had
+                # already looked up the lazy-loader stub; nothing left to do here,
+                # the caller re-dispatches to the (now replaced) method.
+                return
+            cls.set_backend()
+            if not cls.__backend:
+                raise AssertionError(
+                    f"{cls.name}: set_backend() failed to load a default backend"
+                )
 
 
 class SubclassBackendMixin(BackendMixin):
